@@ -257,7 +257,8 @@ def composite_cases(rep: Report, rng: random.Random, n: int) -> None:
     def mhsa_ref(m, x):
         qkv = U.linear(x, m.linear_qkv.weight, None, "to_output_scale")
         q, k, v = einops.rearrange(qkv, "b s (z h d) -> z b h s d", h=m.heads, z=3)
-        a = U.scaled_dot_product_attention(q, k, v, dropout_p=m.dropout_p, is_causal=m.is_causal, mult=m.mult)
+        # written from the documented meaning of the options, NOT from MHSA.forward: dropout acts in training mode only
+        a = U.scaled_dot_product_attention(q, k, v, dropout_p=m.dropout_p if m.training else 0.0, is_causal=m.is_causal, mult=m.mult)
         a = einops.rearrange(a, "b h s d -> b s (h d)")
         return U.linear(a, m.linear_o.weight, None, "to_output_scale")
 
@@ -333,6 +334,11 @@ def composite_cases(rep: Report, rng: random.Random, n: int) -> None:
             if not torch.equal(got, want) or abs(float(got) - float(plain)) > 1e-5 * max(1.0, abs(float(plain))):
                 rep.violation(f"TransformerDecoder.loss(ids) = {float(got)!r}, cross entropy of the shifted logits = {float(want)!r} (torch: {float(plain)!r})",
                               {"module": "TransformerDecoder", "what": "loss", "layers": layers, "heads": heads, "training": training}, key="functional_form:TransformerDecoder:loss")
+        # mode-level clauses that need no reference: evaluation mode is deterministic
+        if not training and dp > 0:
+            for lab, mm_, xx_ in (("MHSA", m2, x), ("TransformerLayer", m3, x), ("TransformerDecoder", m4, ids)):
+                if not torch.equal(mm_(xx_), mm_(xx_)):
+                    rep.violation(f"{lab}(dropout_p={dp}) in eval mode gives different outputs on repeated calls (dropout still active)", {"module": lab, "dropout_p": dp, "what": "eval_nondeterministic"}, key=f"eval_nondeterministic:{lab}")
         rep.case(("composite", i))
         # tags and depth
         for name, p in m4.named_parameters():
